@@ -11,11 +11,11 @@ CLAIMED = {
  'C01': seq('TLC exhausts the allocation sub-model (2 providers, 2 classes, 2 consumers, 3 inventory records, amounts 1-3, every choice of initial inventories) checking C01_Step on every transition; boundary-biased random and scripted histories are executed on the real WSGI stack and every step is validated by TLC against API!Apply with C01_Step evaluated on the observed step.', '7.1'),
  'C04': seq('Every rejected request of the TLC model and of every recorded history must leave the full abstract state (all tables except the aux residue) unchanged: C04_Step as an action property of MC_API and as a monitor on each recorded step.', '7.4'),
  'C08': seq('RefIntegrity as TLC invariant and C08_DeleteRules as action property on the forest, names and allocation sub-models; on recorded histories the projection keeps dangling references visible and both are evaluated after every request.', '7.8'),
- 'C09': seq('TLC exhausts every labelled forest over 4 providers under create/update/delete at versions on both sides of 1.14 and 1.37 (Forest, RootCorrect, C09_Rejects); histories over 8 providers biased to subtree moves are validated step by step with the stored root pointer compared.', '7.9'),
+ 'C09': seq('TLC exhausts every labelled forest over 4 providers under create/update/delete at versions on both sides of 1.14 and 1.37 (Forest, RootCorrect, C09_Rejects); histories over 8 providers biased to subtree moves are validated step by step with the stored root pointer compared; parents are also named in other spellings of their uuid (upper case, without dashes, in braces), for which the model and the trace check admit either reading (API!Readings).', '7.9'),
  'C10': seq('C10_Step (must-bump / never-bump / never-decrease / returned generation equals stored) as action property of the TLC sub-models and as monitor on every recorded step; each write is followed by the reads that expose its generation.', '7.10'),
  'C11': seq('API!Apply is the documented meaning; every recorded step over all modelled routes, versions 1.0-1.39, valid and invalid arguments, must equal Apply in status, error code, abstract body and complete next state (generation values up to their magnitude, which no property demands). Spec -> code: behaviours simulated by TLC from MC_API are replayed into the real application. The repository\'s own gabbi functional corpus (79 files, 1 312 exchanges, not part of the pinned suite) is recorded through a WSGI layer and judged by TLC: exchanges inside the alphabet of Apply step by step, the others by the request-independent rules.', '7.11'),
  'C12': seq('ConsumerIffAllocs as TLC invariant, C12_Step as action property; histories over 4 consumers at the four version bands under default and custom incomplete_consumer_* configuration, validated step by step.', '7.12'),
- 'C19': seq('C19_Inv / C19_Step on the names sub-model and on recorded histories of class/trait creation, rename and deletion; the projection compares the real os_traits / os_resource_classes vocabularies with the tables after every request. Character level: spec/NameRules.tla (legal custom name over code points, answers of the four creating operations) model checked through MC_NameRules, and crafted / mutated names sent to the real service with every exchange judged by TLC (TraceNames.tla): no illegal name stored, no duplicate, existing names answered 204 / 409.', '7.19'),
+ 'C19': seq('C19_Inv / C19_Step on the names sub-model and on recorded histories of class/trait creation, rename and deletion; the projection compares the real os_traits / os_resource_classes vocabularies with the tables after every request. Character level: spec/NameRules.tla (legal custom name over code points, answers of the four creating operations) model checked through MC_NameRules, and crafted / mutated names sent to the real service with every exchange judged by TLC (TraceNames.tla): no illegal name stored, no duplicate, existing names answered 204 / 409. Start-up: every statement of the start-up synchronisation from an empty, partial and full database is failed once by an injected database error, and the start-up that follows in the same process must leave every standard name present.', '7.19'),
 }
 CONC_NOTE = ('Trusted base: TLC, pv/sched.py (SQLAlchemy engine events park request threads at top-level transaction begin), '
              'pv/project.py, SQLite; transactions are scheduled one at a time (atomic and isolated, the premise stated by the property). '
@@ -26,8 +26,8 @@ def conc(text, design_ref):
                 technique='TLC model checking of Tx.tla (all interleavings of each race) + replay of every distinguishable transaction interleaving on the real code, judged by TLC against API!Apply (TraceSerial.tla) and against Tx.tla outcomes')
 
 CLAIMED.update({
- 'C05': conc('For every pair (and sampled triples) of provider-writing request kinds on one provider with equal / stale / future generations: TLC explores all interleavings of the transaction-structure model Tx.tla (C05_Tx: a generation-carrying request changes the provider only in a commit that found that generation); the same races are executed on the real application under a deterministic transaction scheduler, every distinguishable interleaving, and TLC judges each execution (commit-time generation, at most one effective writer per generation, error status justified, outcome admitted by Tx.tla).', '7.5'),
- 'C06': conc('Races of PUT /allocations, POST /allocations and POST /reshaper on one consumer (new or existing; generations null, current, stale, next, guessed 0): Tx.tla model checked by TLC (C06_Tx), every distinguishable interleaving replayed on the real code and judged by TLC (C06_Commits, C06_AtMostOne, admissible error statuses, outcome admitted by Tx.tla).', '7.6'),
+ 'C05': conc('For every pair (and triples) of provider-writing request kinds on one provider (one with, one without inventory) with equal / stale / future generations: TLC explores all interleavings of the transaction-structure model Tx.tla (C05_Tx: a generation-carrying request changes the provider only in a commit that found that generation); the same races are executed on the real application under a deterministic transaction scheduler, every distinguishable interleaving, and TLC judges each execution (commit-time generation, at most one effective writer per generation, error status justified, outcome admitted by Tx.tla).', '7.5'),
+ 'C06': conc('Races of PUT /allocations, POST /allocations and POST /reshaper on one consumer (new or existing; generations null, current, stale, next, guessed 0): Tx.tla model checked by TLC (C06_Tx), every distinguishable interleaving replayed on the real code and judged by TLC (C06_Commits, C06_AtMostOne per incarnation of a consumer, admissible error statuses, outcome admitted by Tx.tla). Races of three are run under the straggler family (one request stops after j transactions, the other two complete, it resumes) and sampled (quick) or enumerated fewest-preemptions-first (thorough).', '7.6'),
  'C07': conc('Allocation writes for equal and different consumers racing for one inventory and against generation-guarded inventory shrink / trait / aggregate updates: SerializableTx as TLC invariant of Tx.tla; for every replayed interleaving TLC searches the serial orders of the effective successful requests under API!Apply for one that reproduces statuses and the final database.', '7.7'),
 })
 FAULT_NOTE = ('Trusted base: TLC, pv/faults.py (faults raised from the SQLAlchemy before_cursor_execute event), pv/project.py, SQLite. '
